@@ -1,3 +1,430 @@
-import ArrModel.Manip
+import ArrProofs.Lemmas.C07
+/-!
+# C07 — reshaping operations never reorder, drop or invent elements
+
+Model under test: `ArrModel/Reshape.lean` (`reshape`, `ravel`) and `ArrModel/Manip.lean` (`resize`, `cycleTake`,
+`atleast`, `expandDims`, `squeeze`, `create`).  All statements are for every rank, every length, every axis list
+and every chain length.  Specification vocabulary (defined in `Lemmas/C07.lean`):
+`insertAll sh ps` = insert a `1` at each position of `ps` in turn, `eraseAll sh ds` = erase each position of `ds` in
+turn, `dropIdx P sh` = the entries of `sh` whose index does not satisfy `P`.
+-/
 namespace ArrModel.C07
+open ArrModel Arr
+variable {α : Type}
+
+/-! ## 1. reshape, ravel -/
+
+/-- **reshape** succeeds exactly when the element count matches, and then re-wraps the very same element list -/
+theorem reshape_ok_iff (a : Arr α) (s : List Nat) (r : Arr α) :
+    a.reshape s = .ok r ↔ s.prod = a.elems.length ∧ r = ⟨a.elems, s⟩ := Arr.new_ok_iff _ _ _
+
+/-- … and otherwise it is the error `ShapeMustMatchValuesLength` (never a panic) -/
+theorem reshape_err (a : Arr α) (s : List Nat) (h : s.prod ≠ a.elems.length) :
+    a.reshape s = .err .ShapeMustMatchValuesLength := Arr.new_of_not_prod h
+
+/-- **ravel** keeps the elements, the shape is `[len]`, the result is well formed -/
+theorem ravel_spec (a : Arr α) : a.ravel.elems = a.elems ∧ a.ravel.shape = [a.elems.length] ∧ a.ravel.WF :=
+  ⟨rfl, rfl, by simp [Arr.ravel, Arr.flat, Arr.WF]⟩
+
+/-! ## 2. every operation keeps the flat element list -/
+
+theorem atleast_elems (a r : Arr α) (n : Nat) (h : a.atleast n = .ok r) : r.elems = a.elems := by
+  have hb : ∀ (x : Res Nat) (f : Nat → List Nat), (x >>= fun d => a.reshape (f d)) = .ok r → r.elems = a.elems := by
+    intro x f h
+    obtain ⟨d, _, hd⟩ := Res.bind_eq_ok h
+    exact Arr.reshape_elems hd
+  unfold Arr.atleast at h
+  split at h
+  · cases h; rfl
+  · cases h; rfl
+  · unfold Arr.atleast2d at h
+    split at h
+    · cases h; rfl
+    · split at h
+      · exact Arr.reshape_elems h
+      · exact hb _ (fun d => [1, d]) h
+      · exact hb _ (fun d => [d, 1]) h
+  · unfold Arr.atleast3d at h
+    split at h
+    · cases h; rfl
+    · split at h
+      · exact Arr.reshape_elems h
+      · exact hb _ (fun d => [1, d, 1]) h
+      · obtain ⟨d0, _, h⟩ := Res.bind_eq_ok h
+        exact hb _ (fun d => [d0, d, 1]) h
+      · cases h; rfl
+  · cases h
+
+theorem expandDims_elems (a r : Arr α) (axes : List Int) (h : a.expandDims axes = .ok r) : r.elems = a.elems := by
+  unfold Arr.expandDims at h
+  simp only at h
+  split at h
+  · cases h
+  · obtain ⟨sh, _, h⟩ := Res.bind_eq_ok h
+    exact Arr.reshape_elems h
+
+theorem squeeze_elems (a r : Arr α) (axes : Option (List Int)) (h : a.squeeze axes = .ok r) :
+    r.elems = a.elems := by
+  unfold Arr.squeeze at h
+  split at h
+  · simp only at h
+    split at h
+    · cases h
+    · obtain ⟨dims, _, h⟩ := Res.bind_eq_ok h
+      split at h
+      · cases h
+      · obtain ⟨sh, _, h⟩ := Res.bind_eq_ok h
+        exact Arr.reshape_elems h
+  · exact Arr.reshape_elems h
+
+/-- **atleast(n)** on a well-formed array, `n ≤ 3`: succeeds, elements kept, well formed, and (for rank ≥ 1) the rank
+is raised to `max rank n`.  (Rank 0 with `n = 1` is returned unchanged: `atleast_1d` tests `!ndim >= 1`, a bitwise
+NOT, so it never reshapes.) -/
+theorem atleast_ok (a : Arr α) (n : Nat) (hwf : a.WF) (hn : n ≤ 3) :
+    ∃ r, a.atleast n = .ok r ∧ r.elems = a.elems ∧ r.WF ∧ (1 ≤ a.ndim → r.ndim = max a.ndim n) := by
+  obtain ⟨e, sh⟩ := a
+  simp only [Arr.WF] at hwf
+  have hn' : n = 0 ∨ n = 1 ∨ n = 2 ∨ n = 3 := by omega
+  rcases hn' with rfl | rfl | rfl | rfl
+  · exact ⟨_, rfl, rfl, hwf, fun _ => by simp⟩
+  · exact ⟨_, rfl, rfl, hwf, fun h => by simp only [Arr.ndim] at h ⊢; omega⟩
+  · match sh, hwf with
+    | [], hwf => exact ⟨⟨e, [1, 1]⟩, by simp [Arr.atleast, Arr.atleast2d, Arr.ndim, Arr.reshape, Arr.new, hwf],
+        rfl, by simpa [Arr.WF] using hwf, fun h => by simp [Arr.ndim] at h⟩
+    | [d], hwf => exact ⟨⟨e, [1, d]⟩,
+        by simp [Arr.atleast, Arr.atleast2d, Arr.ndim, Arr.reshape, Arr.new, Res.idx, hwf],
+        rfl, by simpa [Arr.WF] using hwf, fun _ => by simp [Arr.ndim]⟩
+    | d0 :: d1 :: rest, hwf => exact ⟨⟨e, d0 :: d1 :: rest⟩, by simp [Arr.atleast, Arr.atleast2d, Arr.ndim],
+        rfl, hwf, fun _ => by simp only [Arr.ndim, List.length_cons]; omega⟩
+  · match sh, hwf with
+    | [], hwf => exact ⟨⟨e, [1, 1, 1]⟩, by simp [Arr.atleast, Arr.atleast3d, Arr.ndim, Arr.reshape, Arr.new, hwf],
+        rfl, by simpa [Arr.WF] using hwf, fun h => by simp [Arr.ndim] at h⟩
+    | [d], hwf => exact ⟨⟨e, [1, d, 1]⟩,
+        by simp [Arr.atleast, Arr.atleast3d, Arr.ndim, Arr.reshape, Arr.new, Res.idx, hwf],
+        rfl, by simpa [Arr.WF] using hwf, fun _ => by simp [Arr.ndim]⟩
+    | [d0, d1], hwf => exact ⟨⟨e, [d0, d1, 1]⟩,
+        by simp [Arr.atleast, Arr.atleast3d, Arr.ndim, Arr.reshape, Arr.new, Res.idx, hwf],
+        rfl, by simpa [Arr.WF] using hwf, fun _ => by simp [Arr.ndim]⟩
+    | d0 :: d1 :: d2 :: rest, hwf => exact ⟨⟨e, d0 :: d1 :: d2 :: rest⟩,
+        by simp [Arr.atleast, Arr.atleast3d, Arr.ndim],
+        rfl, hwf, fun _ => by simp only [Arr.ndim, List.length_cons]; omega⟩
+
+/-- the shapes `atleast` produces, rank by rank: `[d] ↦ [1,d]` / `[1,d,1]`, `[d0,d1] ↦ [d0,d1,1]`, `[] ↦ [1,1]` / `[1,1,1]` -/
+theorem atleast_shapes (e : List α) :
+    (∀ d, d = e.length → (⟨e, [d]⟩ : Arr α).atleast 2 = .ok ⟨e, [1, d]⟩ ∧ (⟨e, [d]⟩ : Arr α).atleast 3 = .ok ⟨e, [1, d, 1]⟩) ∧
+    (∀ d0 d1, d0 * d1 = e.length → (⟨e, [d0, d1]⟩ : Arr α).atleast 3 = .ok ⟨e, [d0, d1, 1]⟩) ∧
+    (e.length = 1 → (⟨e, []⟩ : Arr α).atleast 2 = .ok ⟨e, [1, 1]⟩ ∧ (⟨e, []⟩ : Arr α).atleast 3 = .ok ⟨e, [1, 1, 1]⟩) := by
+  refine ⟨fun d h => ⟨?_, ?_⟩, fun d0 d1 h => ?_, fun h => ⟨?_, ?_⟩⟩ <;>
+    simp [Arr.atleast, Arr.atleast2d, Arr.atleast3d, Arr.ndim, Arr.reshape, Arr.new, Res.idx, h]
+
+/-- a rank that is already high enough is left alone; `n > 3` is refused -/
+theorem atleast_noop (a : Arr α) (n : Nat) (hn : n ≤ 3) (h : n ≤ a.ndim) : a.atleast n = .ok a := by
+  have hn' : n = 0 ∨ n = 1 ∨ n = 2 ∨ n = 3 := by omega
+  rcases hn' with rfl | rfl | rfl | rfl
+  · rfl
+  · rfl
+  · simp only [Arr.atleast, Arr.atleast2d]; rw [if_pos h]
+  · simp only [Arr.atleast, Arr.atleast3d]; rw [if_pos h]
+
+theorem atleast_unsupported (a : Arr α) (n : Nat) (hn : 3 < n) : a.atleast n = .err .UnsupportedDimension := by
+  match n, hn with
+  | n + 4, _ => rfl
+
+/-! ## 3. chains -/
+
+/-- one reshaping step -/
+inductive Step
+  | reshape (s : List Nat)
+  | ravel
+  | atleast (n : Nat)
+  | expand (axes : List Int)
+  | squeeze (axes : Option (List Int))
+
+/-- a step is the model's own operation -/
+def Step.apply (a : Arr α) : Step → Res (Arr α)
+  | .reshape s => a.reshape s
+  | .ravel => .ok a.ravel
+  | .atleast n => a.atleast n
+  | .expand axes => a.expandDims axes
+  | .squeeze axes => a.squeeze axes
+
+/-- run a chain left to right; the first error / panic ends it -/
+def run (a : Arr α) : List Step → Res (Arr α)
+  | [] => .ok a
+  | s :: rest => s.apply a >>= fun b => run b rest
+
+theorem step_elems (a r : Arr α) (s : Step) (h : s.apply a = .ok r) : r.elems = a.elems := by
+  cases s with
+  | reshape s => exact Arr.reshape_elems h
+  | ravel => cases h; rfl
+  | atleast n => exact atleast_elems a r n h
+  | expand axes => exact expandDims_elems a r axes h
+  | squeeze axes => exact squeeze_elems a r axes h
+
+/-- **any chain** of reshape / ravel / atleast / expand_dims / squeeze returns exactly the same elements in the
+same flat order -/
+theorem run_elems (steps : List Step) : ∀ (a r : Arr α), run a steps = .ok r → r.elems = a.elems := by
+  induction steps with
+  | nil => intro a r h; cases h; rfl
+  | cons s rest ih =>
+    intro a r h
+    obtain ⟨b, hb, hr⟩ := Res.bind_eq_ok h
+    rw [ih b r hr, step_elems a b s hb]
+
+/-- **… so any sequence of them that ends in the original shape is the identity** -/
+theorem run_identity (steps : List Step) (a r : Arr α) (h : run a steps = .ok r) (hs : r.shape = a.shape) : r = a := by
+  have he := run_elems steps a r h
+  cases r; cases a; simp only at he hs; rw [he, hs]
+
+theorem step_wf (a r : Arr α) (s : Step) (hwf : a.WF) (h : s.apply a = .ok r) : r.WF := by
+  have hshape : ∀ {a r : Arr α} {s : List Nat}, a.reshape s = .ok r → r.WF := Arr.reshape_wf
+  cases s with
+  | reshape s => exact Arr.reshape_wf h
+  | ravel => cases h; exact (ravel_spec a).2.2
+  | atleast n =>
+    rcases Nat.lt_or_ge 3 n with hn | hn
+    · rw [show Step.apply a (.atleast n) = a.atleast n from rfl, atleast_unsupported a n hn] at h; cases h
+    · obtain ⟨r', h1, _, h3, _⟩ := atleast_ok a n hwf hn
+      rw [show Step.apply a (.atleast n) = a.atleast n from rfl, h1] at h; cases h; exact h3
+  | expand axes =>
+    simp only [Step.apply, Arr.expandDims] at h
+    split at h
+    · cases h
+    · obtain ⟨sh, _, h⟩ := Res.bind_eq_ok h
+      exact Arr.reshape_wf h
+  | squeeze axes =>
+    simp only [Step.apply, Arr.squeeze] at h
+    split at h
+    · split at h
+      · cases h
+      · obtain ⟨dims, _, h⟩ := Res.bind_eq_ok h
+        split at h
+        · cases h
+        · obtain ⟨sh, _, h⟩ := Res.bind_eq_ok h
+          exact Arr.reshape_wf h
+    · exact Arr.reshape_wf h
+
+/-- chains keep the well-formedness invariant `len = ∏ shape` -/
+theorem run_wf (steps : List Step) : ∀ (a r : Arr α), a.WF → run a steps = .ok r → r.WF := by
+  induction steps with
+  | nil => intro a r hwf h; cases h; exact hwf
+  | cons s rest ih =>
+    intro a r hwf h
+    obtain ⟨b, hb, hr⟩ := Res.bind_eq_ok h
+    exact ih b r (step_wf a b s hwf hb) hr
+
+/-! ## 4. expand_dims -/
+
+/-- the positions `expand_dims` inserts at: each request normalised against the *final* rank, sorted ascending -/
+def expandPos (nd : Nat) (axes : List Int) : List Nat :=
+  sortNat (axes.map (fun i => normalizeAxisDim nd i axes.length))
+
+/-- negative requests count from the end of the result (rank `nd + n`), non-negative ones are taken as they are -/
+theorem normalizeAxisDim_spec (nd n : Nat) (i : Int) :
+    (0 ≤ i → (normalizeAxisDim nd i n : Int) = i) ∧
+    (-((nd + n : Nat) : Int) ≤ i → i < 0 → (normalizeAxisDim nd i n : Int) = i + (nd + n : Nat)) := by
+  unfold normalizeAxisDim
+  constructor
+  · intro h; rw [if_neg (by omega)]; omega
+  · intro h1 h2
+    rw [if_pos h2]
+    simp only
+    rw [if_neg (by omega)]
+    omega
+
+/-- **expand_dims, the accepted case** (`k`-th smallest request `≤ rank + k` — exactly what the code checks):
+the elements are kept, the rank grows by the number of requests, the result has a `1` at every requested position,
+and erasing the requested positions (largest first) gives back the old shape.  Repeated requests are allowed here. -/
+theorem expandDims_spec (a : Arr α) (axes : List Int) (hwf : a.WF)
+    (hpos : ∀ k (h : k < (expandPos a.ndim axes).length), (expandPos a.ndim axes)[k] ≤ a.ndim + k) :
+    ∃ r, a.expandDims axes = .ok r ∧ r.elems = a.elems ∧ r.WF ∧ r.ndim = a.ndim + axes.length ∧
+      (∀ i ∈ axes, r.shape[normalizeAxisDim a.ndim i axes.length]? = some 1) ∧
+      (expandPos a.ndim axes).foldr (fun p s => s.eraseIdx p) r.shape = a.shape := by
+  have hok : okPos a.ndim (expandPos a.ndim axes) := (okPos_iff _ _).2 hpos
+  refine ⟨_, Arr.expandDims_ok a axes hwf hok, rfl, ?_, ?_, ?_, ?_⟩
+  · simp only [Arr.WF, insertAll_prod]; exact hwf
+  · have := insertAll_length _ _ hok
+    simpa [expandPos, Arr.ndim, sortNat_length] using this
+  · intro i hi
+    exact insertAll_one_at _ _ (sortNat_sorted _) hok _ (mem_sortNat.2 (List.mem_map.2 ⟨i, hi, rfl⟩))
+  · exact erase_insertAll _ _ hok
+
+/-- **expand_dims with distinct positions inside the final rank** (the numpy contract) always succeeds, and the
+result shape is the old shape with unit axes at exactly the requested positions: dropping the entries at the
+requested indices gives the old shape back. -/
+theorem expandDims_distinct (a : Arr α) (axes : List Int) (hwf : a.WF)
+    (hnd : (axes.map (fun i => normalizeAxisDim a.ndim i axes.length)).Nodup)
+    (hin : ∀ i ∈ axes, normalizeAxisDim a.ndim i axes.length < a.ndim + axes.length) :
+    ∃ r, a.expandDims axes = .ok r ∧ r.elems = a.elems ∧ r.ndim = a.ndim + axes.length ∧
+      (∀ i ∈ axes, r.shape[normalizeAxisDim a.ndim i axes.length]? = some 1) ∧
+      dropIdx (fun p => decide (p ∈ axes.map (fun i => normalizeAxisDim a.ndim i axes.length))) r.shape = a.shape := by
+  have hst := sortNat_strict hnd
+  have hok : okPos a.ndim (expandPos a.ndim axes) := by
+    apply okPos_of_strict_bounded _ _ hst
+    intro p hp
+    obtain ⟨i, hi, rfl⟩ := List.mem_map.1 (mem_sortNat.1 hp)
+    simp only [sortNat_length, List.length_map]; exact hin i hi
+  obtain ⟨r, h1, h2, _, h4, h5, h6⟩ := expandDims_spec a axes hwf ((okPos_iff _ _).1 hok)
+  refine ⟨r, h1, h2, h4, h5, ?_⟩
+  have hrev : (expandPos a.ndim axes).reverse.Pairwise (· > ·) := sortNat_reverse_desc hnd
+  have := eraseAll_eq_dropIdx r.shape _ hrev
+  rw [eraseAll, List.foldl_reverse] at this
+  rw [← h6, this]
+  apply dropIdx_congr
+  intro p
+  simp only [expandPos, List.mem_reverse, mem_sortNat]
+
+/-- **a request beyond the result rank is an error, never a panic** -/
+theorem expandDims_out_of_range (a : Arr α) (axes : List Int)
+    (h : ∃ i ∈ axes, a.ndim + axes.length ≤ normalizeAxisDim a.ndim i axes.length) :
+    a.expandDims axes = .err .AxisOutOfBounds := by
+  apply Arr.expandDims_err
+  intro hok
+  obtain ⟨i, hi, hge⟩ := h
+  have hm : normalizeAxisDim a.ndim i axes.length ∈ expandPos a.ndim axes :=
+    mem_sortNat.2 (List.mem_map.2 ⟨i, hi, rfl⟩)
+  obtain ⟨k, hk, hkv⟩ := List.mem_iff_getElem.1 hm
+  have := (okPos_iff _ _).1 hok k hk
+  have hl : (expandPos a.ndim axes).length = axes.length := by simp [expandPos, sortNat_length]
+  change (expandPos a.ndim axes)[k] ≤ a.ndim + k at this
+  omega
+
+/-- `expand_dims` on a well-formed array never panics: it is the spec'd success or `AxisOutOfBounds` -/
+theorem expandDims_total (a : Arr α) (axes : List Int) (hwf : a.WF) :
+    (∃ r, a.expandDims axes = .ok r) ∨ a.expandDims axes = .err .AxisOutOfBounds := by
+  by_cases hok : okPos a.ndim (expandPos a.ndim axes)
+  · exact .inl ⟨_, Arr.expandDims_ok a axes hwf hok⟩
+  · exact .inr (Arr.expandDims_err a axes hok)
+
+/-! ## 5. squeeze -/
+
+/-- **squeeze(None)** drops every unit axis and nothing else; always succeeds on a well-formed array -/
+theorem squeeze_none_shape (a : Arr α) (hwf : a.WF) :
+    a.squeeze none = .ok ⟨a.elems, a.shape.filter (fun d => d != 1)⟩ := by
+  unfold Arr.squeeze
+  exact Arr.reshape_of_prod hwf (prod_filter_ne_one _)
+
+/-- **removing a named axis is allowed only when its length is one** -/
+theorem squeeze_rejects_nonunit (a : Arr α) (axes : List Int)
+    (hin : ∀ i ∈ axes, normalizeAxis a.ndim i < a.ndim)
+    (h : ∃ i ∈ axes, a.shape[normalizeAxis a.ndim i]? ≠ some 1) :
+    a.squeeze (some axes) = .err .SqueezeShapeOfAxisMustBeOne := by
+  apply Arr.squeeze_some_nonunit
+  · intro x hx; obtain ⟨i, hi, rfl⟩ := List.mem_map.1 hx; exact hin i hi
+  · obtain ⟨i, hi, hne⟩ := h; exact ⟨_, List.mem_map.2 ⟨i, hi, rfl⟩, hne⟩
+
+/-- a named axis outside the rank is an error, never a panic -/
+theorem squeeze_out_of_range (a : Arr α) (axes : List Int) (h : ∃ i ∈ axes, a.ndim ≤ normalizeAxis a.ndim i) :
+    a.squeeze (some axes) = .err .AxisOutOfBounds := by
+  apply Arr.squeeze_some_out_of_range
+  obtain ⟨i, hi, hge⟩ := h; exact ⟨_, List.mem_map.2 ⟨i, hi, rfl⟩, hge⟩
+
+/-- hence: whenever some named axis has a length other than one (or does not exist), `squeeze` is an error -/
+theorem squeeze_nonunit_is_error (a : Arr α) (axes : List Int)
+    (h : ∃ i ∈ axes, a.shape[normalizeAxis a.ndim i]? ≠ some 1) : ∃ e, a.squeeze (some axes) = .err e := by
+  by_cases hout : ∃ i ∈ axes, a.ndim ≤ normalizeAxis a.ndim i
+  · exact ⟨_, squeeze_out_of_range a axes hout⟩
+  · refine ⟨_, squeeze_rejects_nonunit a axes (fun i hi => ?_) h⟩
+    rcases Nat.lt_or_ge (normalizeAxis a.ndim i) a.ndim with h | h
+    · exact h
+    · exact absurd ⟨i, hi, h⟩ hout
+
+/-- **squeeze(Some(axes))**, distinct axes all of length one: succeeds, elements kept, and the shape is the old shape
+without the entries at the named indices (all ranks, any number of axes, any order, negative spellings) -/
+theorem squeeze_named_ok (a : Arr α) (axes : List Int) (hwf : a.WF)
+    (hnd : (axes.map (normalizeAxis a.ndim)).Nodup)
+    (h1 : ∀ i ∈ axes, a.shape[normalizeAxis a.ndim i]? = some 1) :
+    a.squeeze (some axes)
+      = .ok ⟨a.elems, dropIdx (fun p => decide (p ∈ axes.map (normalizeAxis a.ndim))) a.shape⟩ := by
+  rw [Arr.squeeze_some_ok a axes hwf hnd (fun x hx => by obtain ⟨i, hi, rfl⟩ := List.mem_map.1 hx; exact h1 i hi),
+    eraseAll_eq_dropIdx _ _ (sortNat_reverse_desc hnd)]
+  congr 2
+  apply dropIdx_congr
+  intro p
+  simp only [List.mem_reverse, mem_sortNat]
+
+/-- single named axis: the shape is the old shape with that one position erased -/
+theorem squeeze_single (a : Arr α) (i : Int) (hwf : a.WF) (h1 : a.shape[normalizeAxis a.ndim i]? = some 1) :
+    a.squeeze (some [i]) = .ok ⟨a.elems, a.shape.eraseIdx (normalizeAxis a.ndim i)⟩ := by
+  rw [Arr.squeeze_some_ok a [i] hwf (by simp) (by simpa using h1)]
+  simp [sortNat, eraseAll]
+
+/-! ## 6. resize, cycle_take -/
+
+/-- **resize fills the target shape by cycling through the source elements in order** -/
+theorem resize_at (a : Arr α) (s : List Nat) (hne : a.elems ≠ []) :
+    ∃ r, a.resize s = .ok r ∧ r.shape = s ∧ r.WF ∧
+      ∀ i, i < s.prod → r.elems[i]? = a.elems[i % a.elems.length]? := by
+  refine ⟨⟨cycleTake a.elems s.prod, s⟩, ?_, rfl, ?_, ?_⟩
+  · unfold Arr.resize Arr.reshape
+    exact Arr.new_of_prod (by simp [Arr.flat, cycleTake_length _ hne])
+  · simp [Arr.WF, cycleTake_length _ hne]
+  · intro i hi; exact cycleTake_getElem? _ hne _ _ hi
+
+/-- resizing an empty source: only an empty target works (there is nothing to cycle through) -/
+theorem resize_empty (a : Arr α) (s : List Nat) (he : a.elems = []) :
+    (s.prod = 0 → a.resize s = .ok ⟨[], s⟩) ∧ (s.prod ≠ 0 → a.resize s = .err .ShapeMustMatchValuesLength) := by
+  unfold Arr.resize Arr.reshape
+  rw [he, cycleTake_nil]
+  exact ⟨fun h => Arr.new_of_prod (by simpa [Arr.flat] using h), fun h => Arr.new_of_not_prod (by simpa [Arr.flat] using h)⟩
+
+/-- `cycle_take(n)`: a flat array of length `n` whose `i`-th element is source element `i mod len` -/
+theorem cycleTake_at (a : Arr α) (n : Nat) (hne : a.elems ≠ []) :
+    (a.cycleTakeArr n).shape = [n] ∧ (a.cycleTakeArr n).WF ∧
+      ∀ i, i < n → (a.cycleTakeArr n).elems[i]? = a.elems[i % a.elems.length]? := by
+  refine ⟨by simp [Arr.cycleTakeArr, Arr.flat, cycleTake_length _ hne], by simp [Arr.cycleTakeArr, Arr.flat, Arr.WF], ?_⟩
+  intro i hi; exact cycleTake_getElem? _ hne _ _ hi
+
+/-! ## 7. create(ndmin) -/
+
+/-- **create with ndmin** left-pads the shape with ones up to rank `ndmin`, keeps the elements; a count mismatch is
+the error `ShapeMustMatchValuesLength` whatever `ndmin` is -/
+theorem create_ndmin_spec (elems : List α) (shape : List Nat) (ndmin : Option Nat) :
+    (shape.prod = elems.length →
+      (shape.length < ndmin.getD 0 →
+        Arr.create elems shape ndmin = .ok ⟨elems, List.replicate (ndmin.getD 0 - shape.length) 1 ++ shape⟩ ∧
+        (List.replicate (ndmin.getD 0 - shape.length) 1 ++ shape).length = ndmin.getD 0) ∧
+      (ndmin.getD 0 ≤ shape.length → Arr.create elems shape ndmin = .ok ⟨elems, shape⟩)) ∧
+    (shape.prod ≠ elems.length → Arr.create elems shape ndmin = .err .ShapeMustMatchValuesLength) := by
+  refine ⟨fun hp => ⟨fun hlt => ⟨?_, ?_⟩, fun hge => ?_⟩, fun hp => ?_⟩
+  · unfold Arr.create
+    simp only [gt_iff_lt, hlt, if_true, Arr.new_of_prod hp, Res.bind_ok]
+    unfold Arr.reshape
+    exact Arr.new_of_prod (by simp [List.prod_append, hp])
+  · simp only [List.length_append, List.length_replicate]; omega
+  · unfold Arr.create
+    simp only [gt_iff_lt, Nat.not_lt.2 hge, if_false, Arr.new_of_prod hp]
+  · unfold Arr.create
+    simp only [Arr.new_of_not_prod hp, Res.bind_err, ite_self]
+
+/-! ## non-vacuity -/
+
+example : (⟨[1, 2, 3, 4, 5, 6], [2, 3]⟩ : Arr Nat).reshape [3, 2] = .ok ⟨[1, 2, 3, 4, 5, 6], [3, 2]⟩ := by decide
+example : (⟨[1, 2, 3, 4, 5, 6], [2, 3]⟩ : Arr Nat).reshape [4, 2] = .err .ShapeMustMatchValuesLength := by decide
+example : (⟨[1, 2, 3], [3]⟩ : Arr Nat).atleast 3 = .ok ⟨[1, 2, 3], [1, 3, 1]⟩ := by decide
+example : (⟨[1, 2, 3], [3]⟩ : Arr Nat).atleast 4 = .err .UnsupportedDimension := by decide
+example : (⟨[1, 2, 3], [1, 3, 1]⟩ : Arr Nat).squeeze none = .ok ⟨[1, 2, 3], [3]⟩ := by decide
+example : (⟨[1, 2, 3], [3]⟩ : Arr Nat).resize [2, 4] = .ok ⟨[1, 2, 3, 1, 2, 3, 1, 2], [2, 4]⟩ := by decide
+example : Arr.create [1, 2, 3, 4] [2, 2] (some 4) = .ok (⟨[1, 2, 3, 4], [1, 1, 2, 2]⟩ : Arr Nat) := by decide
+/-- a chain that ends in the original shape: reshape, ravel, atleast, squeeze(None), reshape back -/
+example : run (⟨[1, 2, 3, 4, 5, 6], [2, 3]⟩ : Arr Nat)
+    [.reshape [3, 2], .ravel, .atleast 3, .squeeze none, .reshape [2, 3]] = .ok ⟨[1, 2, 3, 4, 5, 6], [2, 3]⟩ := by decide
+/-- the hypotheses of `expandDims_distinct` are satisfiable: `expand_dims([0, -1])` on shape `[2]` gives `[1, 2, 1]` -/
+example : ∃ r, (⟨[7, 8], [2]⟩ : Arr Nat).expandDims [0, -1] = .ok r ∧ r.elems = [7, 8] ∧ r.ndim = 3 ∧
+    r.shape[0]? = some 1 ∧ r.shape[2]? = some 1 ∧ dropIdx (fun p => decide (p ∈ [0, 2])) r.shape = [2] := by
+  obtain ⟨r, h1, h2, h3, h4, h5⟩ := expandDims_distinct (⟨[7, 8], [2]⟩ : Arr Nat) [0, -1] (by decide)
+    (by decide) (by decide)
+  have h40 := h4 0 (by simp)
+  have h41 := h4 (-1) (by simp)
+  exact ⟨r, h1, h2, h3, h40, h41, h5⟩
+/-- the hypotheses of `squeeze_named_ok` are satisfiable: squeezing axes `-1, 0` of `[1, 3, 1]` gives `[3]` -/
+example : (⟨[1, 2, 3], [1, 3, 1]⟩ : Arr Nat).squeeze (some [-1, 0]) = .ok ⟨[1, 2, 3], [3]⟩ :=
+  squeeze_named_ok (⟨[1, 2, 3], [1, 3, 1]⟩ : Arr Nat) [-1, 0] (by decide) (by decide) (by decide)
+example : (⟨[1, 2, 3], [1, 3, 1]⟩ : Arr Nat).squeeze (some [1]) = .err .SqueezeShapeOfAxisMustBeOne :=
+  squeeze_rejects_nonunit _ [1] (by decide) (by decide)
+example : (⟨[1, 2, 3], [1, 3, 1]⟩ : Arr Nat).squeeze (some [3]) = .err .AxisOutOfBounds :=
+  squeeze_out_of_range _ [3] (by decide)
+example : (⟨[7, 8], [2]⟩ : Arr Nat).expandDims [3] = .err .AxisOutOfBounds :=
+  expandDims_out_of_range _ [3] (by decide)
+
 end ArrModel.C07
